@@ -6,7 +6,7 @@
 From Coq Require Import ZArith List Bool.
 From V Require Import base.Cal posix.PTime posix.RDelta posix.TzParseModel posix.TzRangeModel
      posix.PosixSpec posix.TzLocalModel posix.TransThm posix.MainThm posix.PosixThm
-     posix.ParseThm posix.ParseFull posix.RejectThm posix.RejectFull posix.LocalThm posix.WallThm posix.SpecThm posix.FoldThm.
+     posix.ParseThm posix.ParseFull posix.RejectThm posix.RejectFull posix.RejectFull2 posix.RejectFull3 posix.ParseShort posix.LocalThm posix.WallThm posix.SpecThm posix.FoldThm.
 Import ListNotations.
 Open Scope Z_scope.
 
@@ -140,6 +140,17 @@ Theorem C08_tzstr_string_posix : forall r po u,
 Proof. exact tzstr_string_posix_lemma. Qed.
 Print Assumptions C08_tzstr_string_posix.
 
+(* the SHORT form people write -- 'EST5EDT,M3.2.0,M11.1.0' (render_short, ParseShort.v): whole-hour
+   offsets as bare hours with '-' only east of UTC, daylight offset omitted, rule times omitted --
+   builds exactly the zone of the canonical string whenever it can express the rule (short_ok:
+   offset a whole hour, saving one hour, both times 02:00); all theorems above transfer to it *)
+Theorem C08_short_form_same_zone : forall r ds po,
+  r.(p_dst) = Some ds -> wf_posix r = true -> short_ok r = true ->
+  (po = true \/ not_gmt_utc r.(p_name) = true) ->
+  tzstr_init (render_short r ds) po = tzstr_init (render_posix r) po.
+Proof. exact short_form_same_zone. Qed.
+Print Assumptions C08_short_form_same_zone.
+
 (* malformed strings are rejected with ValueError: the mechanism, for ALL strings *)
 Theorem C08_tzstr_rejects_unparsed : forall s po,
   tzparse s = Ok None \/ (exists p, tzparse s = Ok (Some p) /\ p.(r_unused) = true) ->
@@ -159,15 +170,21 @@ Theorem C08_tzstr_rejects_classes : forall r ds po,
 Proof. exact tzstr_rejects_classes. Qed.
 Print Assumptions C08_tzstr_rejects_classes.
 
-(* ... and the malformed classes of the property (missing end rule, surplus rule, surplus /time,
-   unknown characters, '/' without time, surplus and missing M field; RejectThm.v) on the finite
-   family rej_family (864 rules) by computation.  FULL STATEMENT (not proved in full): the same for
-   every well-formed rule. *)
-Theorem C08_tzparse_rejects_partial :
-  forall r, In r rej_family -> forall s, In s (malformed_variants r) ->
-  tzstr_init s false = Err EValue /\ tzstr_init s true = Err EValue.
-Proof. exact tzparse_rejects_partial_lemma. Qed.
-Print Assumptions C08_tzparse_rejects_partial.
+(* ... and the remaining classes of RejectThm.malformed_variants, again for EVERY well-formed rule
+   and both posix_offset values: a third rule, an unknown character ('$') after the start rule,
+   a '/' without a time, a surplus '.1' field after the start date, an empty end rule, and an
+   M date without its weekday field (any month / week numbers) -- RejectFull2.v, RejectFull3.v *)
+Theorem C08_tzstr_rejects_classes2 : forall r ds po,
+  r.(p_dst) = Some ds -> wf_posix r = true ->
+  tzstr_init (str_surplus_rule r ds) po = Err EValue /\
+  tzstr_init (str_dollar r ds) po = Err EValue /\
+  tzstr_init (str_slash_no_time r ds) po = Err EValue /\
+  tzstr_init (str_surplus_field r ds) po = Err EValue /\
+  tzstr_init (str_empty_end r ds) po = Err EValue /\
+  (forall m w, 0 <= m < 1000 -> 0 <= w < 1000 ->
+     tzstr_init (str_missing_weekday r ds m w) po = Err EValue).
+Proof. exact tzstr_rejects_classes2. Qed.
+Print Assumptions C08_tzstr_rejects_classes2.
 
 (* tzlocal: for ANY C library isdst function, any offsets with altzone <> timezone, and every UTC
    instant, tzlocal reports the C library's answer (offset, dst, abbreviation) on the wall reading
